@@ -13,6 +13,7 @@ import json
 import time
 
 import vlib
+from checks import sortlib
 
 LEVEL = "model_checking"
 
@@ -110,6 +111,9 @@ def run(ctx):
     v, bads = ctx.tlc_trace(TRACE_SPEC[0], TRACE_SPEC[1], allf, must_hit=MUST_HIT, timeout=3000)
     hits = v.get("hits", {})
     ctx.drift = int(hits.get("Drift", 0))
+    # the index sort that ranks the scores inside roc_auc_score (quick_sort.rs is a C15 anchor):
+    # transcribed TLA+ model + IsArgSort on recorded real calls, see checks/sortlib.py
+    nsort = sortlib.run_sort(ctx, " (ranking used by ROC-AUC)")
     if hits.get("Expect", 0) != 2 * len(replay_in):
         raise vlib.ToolError("not every replayed AucModel input came back")
     for (l, runid, ev, clause) in bads:
@@ -122,7 +126,7 @@ def run(ctx):
             nt.add(vlib.digest([e.get("name", e["ev"]), e.get("ty"), e.get("a", e.get("x")), e.get("b"), e.get("b1"), e.get("b2"),
                                 e.get("U"), e.get("e")]))
     ctx.evaluations = len(events)
-    ctx.traces = len(events)
+    ctx.traces = len(events) + nsort
     ctx.extra["skipped_out_of_range"] = skipped
     ctx.extra["unconstrained_events"] = hits.get("Unconstrained", 0)
     ctx.extra["events_in_known_defect_class"] = sum(1 for b in bads if "@" in b[3])
